@@ -83,8 +83,8 @@ impl BinOp {
             Self::Plus => left.wrapping_add(right),
             Self::Minus => left.wrapping_sub(right),
             Self::Times => left.wrapping_mul(right),
-            Self::Divide => left / right,
-            Self::Reminder => left % right,
+            Self::Divide => left.wrapping_div(right),
+            Self::Reminder => left.wrapping_rem(right),
         }
     }
 }
